@@ -1,24 +1,24 @@
-\* thorough: universe <= 4 so multi-head collapses (ActMerge) occur in exhaustive histories
+\* C06: poison commands at every position of small transactions, exhaustive
 SPECIFICATION Spec
 CONSTANTS
   MergeTag = 2
   Reps = {1, 2}
-  Authors = {1, 2}
-  Receivers = {1, 2}
+  Authors = {1}
+  Receivers = {2}
   Txns = {1}
-  MaxCmds = 4
-  MaxSteps = 5
-  Kinds = {"b0", "fin"}
+  MaxCmds = 3
+  MaxSteps = 6
+  Kinds = {"b0"}
   Ops = {"n"}
-  MaxBatch = 1
+  MaxBatch = 2
   AllowDup = FALSE
   AllowOrphan = FALSE
-  AllowPoison = FALSE
+  AllowPoison = TRUE
   AllowFail = FALSE
-  AllowNoop = TRUE
-  BootAll = FALSE
-  MaxRank = 4
-  AllRanks = TRUE
+  AllowNoop = FALSE
+  BootAll = TRUE
+  MaxRank = 3
+  AllRanks = FALSE
   AllowBad = FALSE
   PubWeight = 1
   CommitWeight = 1
